@@ -393,6 +393,12 @@ class Interp:
     def ev_Tuple(self, e):
         return TupleV([self.ev(x) for x in e.elts])
 
+    def ev_List(self, e):
+        return TupleV([self.ev(x) for x in e.elts])
+
+    def ev_Set(self, e):
+        return TupleV([self.ev(x) for x in e.elts])
+
     ev_List = ev_Tuple
 
     def ev_GeneratorExp(self, e):
@@ -443,6 +449,19 @@ class Interp:
                 if hasattr(arr, 'shape_like'):
                     new.shape_like = arr.shape_like
                 return new
+        # shapes and tuples of scalars combine elementwise (np.array(a.shape) - np.array(b.shape)); 2-D shapes assumed
+        def _tup(v):
+            if isinstance(v, tuple) and v and v[0] == 'shape' and isinstance(v[1], Arr):
+                return TupleV([shape_sym(v[1].name, 0), shape_sym(v[1].name, 1)])
+            return v
+        ta, tb = _tup(va), _tup(vb)
+        if isinstance(ta, TupleV) and isinstance(tb, TupleV) and len(ta.items) == len(tb.items) and \
+                isinstance(e.op, (ast.Add, ast.Sub)) and all(isinstance(x, Rat) for x in ta.items + tb.items) and \
+                (ta is not va or tb is not vb):
+            return TupleV([(x + y) if isinstance(e.op, ast.Add) else (x - y) for x, y in zip(ta.items, tb.items)])
+        if isinstance(ta, TupleV) and isinstance(vb, Rat) and ta is not va and isinstance(e.op, (ast.FloorDiv, ast.Sub, ast.Add)) and \
+                all(isinstance(x, Rat) for x in ta.items):
+            va = ta
         a = self.as_scalar(va, e)
         b = self.as_scalar(vb, e)
         op = e.op
@@ -531,6 +550,14 @@ class Interp:
             right = self.ev(rhs)
             opn = {ast.Eq: '==', ast.NotEq: '!=', ast.Lt: '<', ast.LtE: '<=', ast.Gt: '>', ast.GtE: '>='}.get(type(op))
             if opn is None:
+                if isinstance(op, (ast.In, ast.NotIn)) and isinstance(right, TupleV) and right.items and \
+                        all(isinstance(x, Rat) for x in right.items) and isinstance(left, Rat):
+                    # membership in a literal collection of scalars: a disjunction of equalities
+                    parts = tuple(cmp_cond('==', left, x) for x in right.items)
+                    c = parts[0] if len(parts) == 1 else ('or',) + parts
+                    conds.append(c if isinstance(op, ast.In) else neg_cond(c))
+                    left = right
+                    continue
                 if isinstance(op, (ast.In, ast.NotIn)):
                     c = ('truth', Rat.atom(App('in', [self.as_scalar(left, e), self.as_scalar(right, e)])))
                     conds.append(c if isinstance(op, ast.In) else neg_cond(c))
